@@ -112,6 +112,8 @@ pub use oxymorons::Oxymorons;
 pub use pattern_linter::PatternLinter;
 #[cfg(harper_verif)]
 pub use pattern_linter::run_on_chunk;
+#[cfg(harper_verif)]
+pub use lint_group::verif as lint_group_verif;
 pub use pique_interest::PiqueInterest;
 pub use possessive_your::PossessiveYour;
 pub use pronoun_contraction::PronounContraction;
